@@ -190,6 +190,25 @@ var c13Specs = map[string]c13Spec{
 	"BuildInitialContextSetupResponse": {class: 2, code: 14, amf: true, ran: true, pdu: true, ip: true, msgCrit: -1, call: func(a c13Action) (*ngapType.NGAPPDU, []byte, error) {
 		return fromPDU(ngapTestpacket.BuildInitialContextSetupResponse(a.Amf, a.Ran, a.PduID, ipString(a.IP), nil))
 	}},
+	// the optional failed-to-setup list next to the session that WAS set up: naming the same session (a contradictory
+	// but in-range argument: both ids are 0..255) or another one; the session given as pduId and the GTP address
+	// must still be found in the encoding
+	"BuildInitialContextSetupResponse(failed list names the same session)": {class: 2, code: 14, amf: true, ran: true, pdu: true, ip: true, msgCrit: -1, call: func(a c13Action) (*ngapType.NGAPPDU, []byte, error) {
+		var fl ngapType.PDUSessionResourceFailedToSetupListCxtRes
+		it := ngapType.PDUSessionResourceFailedToSetupItemCxtRes{}
+		it.PDUSessionID.Value = a.PduID
+		it.PDUSessionResourceSetupUnsuccessfulTransfer = aper.OctetString{0x00}
+		fl.List = append(fl.List, it)
+		return fromPDU(ngapTestpacket.BuildInitialContextSetupResponse(a.Amf, a.Ran, a.PduID, ipString(a.IP), &fl))
+	}},
+	"BuildInitialContextSetupResponse(failed list names another session)": {class: 2, code: 14, amf: true, ran: true, ip: true, msgCrit: -1, call: func(a c13Action) (*ngapType.NGAPPDU, []byte, error) {
+		var fl ngapType.PDUSessionResourceFailedToSetupListCxtRes
+		it := ngapType.PDUSessionResourceFailedToSetupItemCxtRes{}
+		it.PDUSessionID.Value = (a.PduID%256 + 256 + 1) % 256
+		it.PDUSessionResourceSetupUnsuccessfulTransfer = aper.OctetString{0x00}
+		fl.List = append(fl.List, it)
+		return fromPDU(ngapTestpacket.BuildInitialContextSetupResponse(a.Amf, a.Ran, int64(uint8(a.PduID)), ipString(a.IP), &fl))
+	}},
 	"BuildInitialContextSetupFailure": {class: 3, code: 14, amf: true, ran: true, msgCrit: -1, call: func(a c13Action) (*ngapType.NGAPPDU, []byte, error) {
 		return fromPDU(ngapTestpacket.BuildInitialContextSetupFailure(a.Amf, a.Ran))
 	}},
@@ -554,6 +573,18 @@ func sameMultiset(a, b []int64) bool {
 	return true
 }
 
+// c13Held: what one action of the history produced — the message value a Build* function returned (not yet
+// encoded by its caller) and the octets obtained for it at the time. Both are looked at again at the end of the
+// history: the emulator's own callers keep such values while other messages are built.
+type c13Held struct {
+	builder string
+	pdu     *ngapType.NGAPPDU
+	bytes   []byte // as returned (may alias library memory)
+	snap    []byte // private copy taken when they were returned
+}
+
+var c13Keep *[]c13Held
+
 func c13Check(a c13Action, s c13Spec, announced []byte) (key string, err error) {
 	var pdu *ngapType.NGAPPDU
 	var b []byte
@@ -565,6 +596,9 @@ func c13Check(a c13Action, s c13Spec, announced []byte) (key string, err error) 
 		}
 		return nil
 	})
+	if c13Keep != nil && site == "" && berr == nil && c13InRange(a, s) {
+		*c13Keep = append(*c13Keep, c13Held{builder: a.Builder, pdu: pdu, bytes: b, snap: append([]byte{}, b...)})
+	}
 	in := c13InRange(a, s)
 	if site != "" {
 		return "panic:" + site, fmt.Errorf("%s panicked: %v", a.Builder, gerr)
@@ -709,6 +743,9 @@ func c13Oracle(c c13Case) ev.Verdict {
 	v := ev.Verdict{}
 	var announced []byte
 	setups := 0
+	var held []c13Held
+	c13Keep = &held
+	defer func() { c13Keep = nil }()
 	for _, a := range c.Actions {
 		s, ok := c13Specs[a.Builder]
 		if !ok {
@@ -735,6 +772,27 @@ func c13Oracle(c c13Case) ev.Verdict {
 		if key, err := c13Check(a, s, announced); err != nil {
 			v.Key, v.Err = key, err
 			return v
+		}
+	}
+	// the messages of the history are still what they were: octets handed out earlier have not been rewritten by the
+	// later builders, and a message value built earlier still encodes to the octets it encoded to then (unless a
+	// later NG Setup announced another PLMN: builders read the announced PLMN when they are CALLED, and values that
+	// were built before keep theirs — so only histories with one NG Setup are compared value-wise)
+	for i, h := range held {
+		if !bytes.Equal(h.bytes, h.snap) {
+			v.Key = "retained:octets-overwritten-by-later-builders:" + h.builder
+			v.Err = fmt.Errorf("action %d (%s): the octets it returned read %x… after %d later actions, they were %x…", i, h.builder, trunc(h.bytes, 24), len(held)-1-i, trunc(h.snap, 24))
+			return v
+		}
+		if h.pdu != nil && setups <= 1 {
+			var again []byte
+			var aerr error
+			_, _ = ev.Guard(func() error { again, aerr = ngap.Encoder(*h.pdu); return nil })
+			if aerr != nil || !bytes.Equal(again, h.snap) {
+				v.Key = "retained:message-value-changed-by-later-builders:" + h.builder
+				v.Err = fmt.Errorf("action %d (%s): the message value it returned now encodes to %x… (err %v), it encoded to %x… when it was built (%d later actions)", i, h.builder, trunc(again, 24), aerr, trunc(h.snap, 24), len(held)-1-i)
+				return v
+			}
 		}
 	}
 	return v
